@@ -88,6 +88,14 @@ def cases(seed, tier):
                             "grid": ir.GRID_KINDS[k % 4], "order": ORDERS[k % 5], "ybatch": k % len(YBATCH), "dtype": "float64",
                             "qlayout": "shuffled"})
                 k += 1
+    # ---- histories on ONE object: y supplied at call time with a sequence of different batch shapes
+    nre = 90 if tier == "quick" else 900
+    for i in range(nre):
+        rng = random.Random(sub_seed(seed, "c14re", i))
+        pool = [(), (1,), (2,), (3,), (2, 2), (1, 3), (4,)]
+        shapes = [list(rng.choice(pool)) for _ in range(rng.choice([2, 3, 4, 5]))]
+        out.append({"group": "reuse", "seed": sub_seed(seed, "c14res", i), "method": ["cspline", "linear"][i % 2], "nx": rng.choice([4, 6, 9]),
+                    "nq": rng.choice([3, 12]), "shuffled": i % 4 != 3, "shapes": shapes})
     return out
 
 
@@ -123,7 +131,51 @@ class Ref:
         return np.stack([np.interp(pos, self.xs, row) for row in self.basis])
 
 
+def run_reuse(desc):
+    """history monitor: ONE Interp1D object (y given at call time) evaluated on a sequence of y tensors with different batch shapes;
+    every call must give what a fresh object gives (the interpolant of *that* y), whatever was evaluated before"""
+    from xitorch.interpolate import Interp1D
+    from scipy.interpolate import CubicSpline
+    obs = Obs(desc)
+    rng = random.Random(desc["seed"])
+    nprng = np.random.default_rng(desc["seed"])
+    nx, method = desc["nx"], desc["method"]
+    xs = np.sort(nprng.uniform(-1.0, 1.0, nx)) + np.arange(nx) * 0.3
+    perm = nprng.permutation(nx) if desc["shuffled"] else np.arange(nx)
+    xq = np.sort(nprng.uniform(xs[0], xs[-1], desc["nq"]))
+    opts = {"bc_type": "natural"} if method == "cspline" else {}
+    obj = Interp1D(torch.tensor(xs[perm]), method=method, assume_sorted=not desc["shuffled"], **opts)
+    shapes = [tuple(sh) for sh in desc["shapes"]]
+    mech = "reuse:%s:%s" % (method, "shuffled" if desc["shuffled"] else "sorted")
+    for i, sh in enumerate(shapes):
+        y = nprng.standard_normal(sh + (nx,))
+        yt = torch.tensor(y[..., perm])
+        try:
+            out = obj(torch.tensor(xq), yt)
+        except Exception as e:
+            obs.exc_violation("%s:call%d_after_%s" % (mech, min(i, 1), "other_batch" if i else "nothing"), e, shapes=[list(s_) for s_ in shapes[:i + 1]])
+            break
+        flat = y.reshape(-1, nx)
+        if method == "cspline":
+            ref = np.stack([CubicSpline(xs, row, bc_type="natural")(xq) for row in flat])
+        else:
+            ref = np.stack([np.interp(xq, xs, row) for row in flat])
+        ref = ref.reshape(sh + (len(xq),))
+        ok_shape = tuple(out.shape) == ref.shape
+        obs.check(ok_shape, "%s:shape" % mech, "call %d with y%s on a reused object returned shape %s, a fresh object gives %s (earlier calls: %s)"
+                  % (i, sh + (nx,), tuple(out.shape), ref.shape, [list(s_) for s_ in shapes[:i]]))
+        if ok_shape:
+            err = float(np.abs(out.numpy() - ref).max())
+            obs.check(err <= 1e-9 * (1 + float(np.abs(ref).max())), "%s:value" % mech,
+                      "call %d on a reused object differs from the interpolant of its own y by %.3e" % (i, err))
+        obs.count("reuse_calls")
+    obs.nontrivial = len(shapes) >= 2
+    return obs.result()
+
+
 def run_case(desc):
+    if desc.get("group") == "reuse":
+        return run_reuse(desc)
     import xitorch  # noqa: F401
     from xitorch.interpolate import Interp1D
     import xitorch._impls.interpolate.interp_1d as imod
